@@ -240,6 +240,13 @@ def fabricate_rejects(acc, ft, w, rnd, cid, order_ids=None):
             if v != "accept" or why:
                 acc.violation("cancel-reject-invalid:" + (classify_invalid(why) if why else v), f"fix_cxlrep_reject_msg({kind}, OrdStatus={st}): {why or v}", wit, cid)
                 return False
+            # the reject is traffic of this order too: it names the order by the OrderID its reports carried
+            if order_ids:
+                acc.oracle("orderid-stable")
+                if str(m.get(37, None)) not in order_ids:
+                    acc.violation("order-id-not-stable:cancel-reject-names-another-orderid", f"the order's reports carried OrderID {sorted(order_ids)}, the helper's {kind} reject carries "
+                                  f"37={m.get(37, None)!r}", wit, cid)
+                    return False
             acc.oracle("order-processes")
             try:
                 o2.process_cancel_rej_report(m)
